@@ -40,20 +40,25 @@ theorem chainHit_some_mem (k : Code) (ch : List (List Code × List Code)) (b : B
 
 /-! ### the default branch raises -/
 
-/-- **Unknown names raise.**  At every position that validates (not one of the three lazy
-    ones), a `$name` for which the position has no branch at all takes the default branch, which
-    raises — `NotImplementedError` for stages and accumulators, OperationFailure / WriteError /
-    ValueError elsewhere. -/
+/-- **Unknown names raise.**  At EVERY position, a `$name` for which the position has no branch
+    at all takes the default branch, which raises — `NotImplementedError` for stages and
+    accumulators, OperationFailure / WriteError / ValueError elsewhere.  (The three positions
+    that validated nothing — a condition whose path reaches no value, an update that matches no
+    document, the clauses next to `$each` in `$addToSet` — are repaired in the library: 6c55e75,
+    1244abc, 6c1d985.) -/
 theorem unknown_raises (T : Tables Code) (pos : Position) (k : Code)
-    (hlazy : pos.lazy = false) (hop : isOp k = true) (hk : k ∉ recognised T pos) :
+    (hop : isOp k = true) (hk : k ∉ recognised T pos) :
     dispatch T pos k = defaultRaise pos := by
-  cases pos <;> simp only [Position.lazy] at hlazy <;>
+  cases pos <;>
     simp only [recognised, List.mem_append, List.mem_cons, List.not_mem_nil,
       or_false, not_or] at hk
-  all_goals first | exact absurd hlazy (by decide) | skip
   -- queryField
   · obtain ⟨⟨h1, h2⟩, h3⟩ := hk
     simp [dispatch, dispatchC, fieldDispatch, classify, defaultRaise, hop,
+      h1, h3, h2]
+  -- queryFieldDeadEnd
+  · obtain ⟨⟨h1, h2⟩, h3⟩ := hk
+    simp [dispatch, dispatchC, deadEndDispatch, classify, defaultRaise, hop,
       h1, h3, h2]
   -- queryTop
   · obtain ⟨⟨⟨h1, h2⟩, h3⟩, h4⟩ := hk
@@ -74,8 +79,14 @@ theorem unknown_raises (T : Tables Code) (pos : Position) (k : Code)
   · obtain ⟨h1, h2⟩ := hk
     simp [dispatch, dispatchC, updateDispatch, classify, defaultRaise,
       h1, h2]
+  -- updateNoMatch
+  · simp [dispatch, dispatchC, updateNoMatchDispatch, classify, defaultRaise,
+      hk]
   -- pushModifier
   · simp [dispatch, dispatchC, pushDispatch, classify, defaultRaise,
+      hk]
+  -- addToSetModifier
+  · simp [dispatch, dispatchC, addToSetDispatch, classify, defaultRaise,
       hk]
   -- stage
   · simp [dispatch, dispatchC, stageDispatch, classify, defaultRaise,
@@ -98,7 +109,8 @@ theorem unknown_raises (T : Tables Code) (pos : Position) (k : Code)
 
 /-- positions whose default branch does not even look at the `$`: any unrecognised key raises -/
 def Position.strict : Position → Bool
-  | .queryNot | .updateOp | .pushModifier | .stage | .accumulator | .typeAlias => true
+  | .queryNot | .updateOp | .updateNoMatch | .pushModifier | .addToSetModifier | .stage
+  | .accumulator | .typeAlias => true
   | _ => false
 
 theorem unknown_raises_strict (T : Tables Code) (pos : Position) (k : Code)
@@ -113,8 +125,13 @@ theorem unknown_raises_strict (T : Tables Code) (pos : Position) (k : Code)
   · obtain ⟨h1, h2⟩ := hk
     simp [dispatch, dispatchC, updateDispatch, classify, defaultRaise,
       h1, h2]
+  · simp [dispatch, dispatchC, updateNoMatchDispatch, classify, defaultRaise,
+      hk]
   · simp [dispatch, dispatchC, pushDispatch, classify, defaultRaise,
       hk]
+  · have hne : k ≠ cEach := by simpa using hk
+    simp [dispatch, dispatchC, addToSetDispatch, classify, defaultRaise,
+      hne]
   · simp [dispatch, dispatchC, stageDispatch, classify, defaultRaise,
       hk]
   · obtain ⟨h1, h2⟩ := hk
@@ -124,26 +141,27 @@ theorem unknown_raises_strict (T : Tables Code) (pos : Position) (k : Code)
     simp [dispatch, dispatchC, typeDispatch, classify, defaultRaise,
       h1, h2]
 
-/-- without the exclusion of the lazy positions the statement is false: `"$"` at a dead-end path -/
-theorem unknown_raises_full_fails :
-    ¬ (∀ (T : Tables Code) (pos : Position) (k : Code), isOp k = true → k ∉ recognised T pos →
-        (dispatch T pos k).raises = true) := by
-  intro h
-  have := h Tables.empty .queryFieldDeadEnd 36 (by decide) (by decide)
-  exact absurd this (by decide)
+theorem defaultRaise_raises (pos : Position) : (defaultRaise pos).raises = true := by
+  cases pos <;> rfl
+
+/-- the full-strength form: whatever the tables, position and name -/
+theorem unknown_raises_everywhere (T : Tables Code) (pos : Position) (k : Code)
+    (hop : isOp k = true) (hk : k ∉ recognised T pos) : (dispatch T pos k).raises = true := by
+  rw [unknown_raises T pos k hop hk]
+  exact defaultRaise_raises pos
 
 /-! ### where the structure ignores a name -/
 
 theorem topDispatch_ignored {c : NameClass} (h : topDispatch c = .ignored) :
-    c.logical = true ∧ c.logicalConst = true := by
+    c.logical = true ∧ c.logicalConst = true ∧ c.not_ = false := by
   unfold topDispatch at h
   split at h
   · cases h
   · split at h
     · split at h
       · rename_i hl hc
-        simp only [Bool.and_eq_true] at hl
-        exact ⟨hl.1, hc⟩
+        simp only [Bool.and_eq_true, Bool.not_eq_true'] at hl
+        exact ⟨hl.1, hc, hl.2⟩
       · cases h
     · split at h
       · cases h
@@ -161,35 +179,76 @@ theorem exprDispatch_not_ignored (dec : Bool) (c : NameClass) : exprDispatch dec
   repeat' split
   all_goals simp
 
-/-- **The structure ignores a name only in the listed ways**: at one of the three lazy
-    positions, or a connective of `LOGICAL_OPERATOR_MAP` whose value is always truthy (`$not`)
-    at the top level of a filter or of an `$elemMatch` query. -/
+theorem deadEndDispatch_ignored {c : NameClass} (h : deadEndDispatch c = .ignored) :
+    c.neNin = true := by
+  unfold deadEndDispatch at h
+  split at h
+  · cases h
+  · split at h
+    · split at h
+      · assumption
+      · cases h
+    · split at h <;> cases h
+
+theorem updateNoMatchDispatch_ignored {c : NameClass} (h : updateNoMatchDispatch c = .ignored) :
+    c.updateChecked = true ∧ c.updater = false ∧ c.updateInline = false := by
+  unfold updateNoMatchDispatch at h
+  split at h
+  · cases h
+  · split at h
+    · cases h
+    · rename_i h1 h2
+      simp only [Bool.not_eq_true', Bool.not_eq_false] at h1
+      simp only [Bool.or_eq_true, not_or, Bool.not_eq_true] at h2
+      exact ⟨h1, h2.1, h2.2⟩
+
+/-- **The structure ignores a name only in the listed ways**: a connective of
+    `LOGICAL_OPERATOR_MAP` other than `$not` whose value is always truthy at the top level of a
+    filter or of an `$elemMatch` query; `$ne` / `$nin` on a path that reaches no value (their operand is not
+    looked at); an update operator that the pre-check lets through and the operator loop has no
+    branch for, when no document matches. -/
 theorem ignored_only_structurally (T : Tables Code) (pos : Position) (k : Code)
     (h : dispatch T pos k = .ignored) :
-    pos.lazy = true ∨
-      (k ∈ T.logicalConst ∧ k ∈ T.logicalOps ∧ (pos = .queryTop ∨ pos = .queryElemMatch)) := by
+    (k ∈ T.logicalConst ∧ k ∈ T.logicalOps ∧ k ≠ cNot ∧
+      (pos = .queryTop ∨ pos = .queryElemMatch)) ∨
+    (pos = .queryFieldDeadEnd ∧ (k = cNe ∨ k = cNin)) ∨
+    (pos = .updateNoMatch ∧ k ∈ T.updateChecked ∧ k ∉ T.updaters ∧ k ∉ T.updateInline) := by
   cases pos <;> simp only [dispatch, dispatchC] at h
-  case queryFieldDeadEnd | updateNoMatch | addToSetModifier => left; rfl
+  case queryFieldDeadEnd =>
+    right; left
+    have := deadEndDispatch_ignored h
+    simp only [classify, Bool.or_eq_true, beq_iff_eq] at this
+    exact ⟨rfl, this⟩
+  case updateNoMatch =>
+    right; right
+    have := updateNoMatchDispatch_ignored h
+    simp only [classify, List.contains_eq_mem, decide_eq_true_eq, decide_eq_false_iff_not] at this
+    exact ⟨rfl, this⟩
+  case addToSetModifier => unfold addToSetDispatch at h; split at h <;> cases h
   case queryField => exact absurd h (fieldDispatch_not_ignored _)
   case queryTop =>
-    right
+    left
     have := topDispatch_ignored h
-    simp only [classify, List.contains_eq_mem, decide_eq_true_eq] at this
-    exact ⟨this.2, this.1, Or.inl rfl⟩
+    simp only [classify, List.contains_eq_mem, decide_eq_true_eq, beq_eq_false_iff_ne] at this
+    exact ⟨this.2.1, this.1, this.2.2, Or.inl rfl⟩
   case queryNot =>
     unfold notDispatch at h
     split at h
     · exact absurd h (fieldDispatch_not_ignored _)
     · cases h
   case queryElemMatch =>
-    right
+    left
     unfold elemMatchDispatch at h
     split at h
     · exact absurd h (fieldDispatch_not_ignored _)
     · have := topDispatch_ignored h
-      simp only [classify, List.contains_eq_mem, decide_eq_true_eq] at this
-      exact ⟨this.2, this.1, Or.inr rfl⟩
-  case updateOp => unfold updateDispatch at h; split at h <;> cases h
+      simp only [classify, List.contains_eq_mem, decide_eq_true_eq, beq_eq_false_iff_ne] at this
+      exact ⟨this.2.1, this.1, this.2.2, Or.inr rfl⟩
+  case updateOp =>
+    unfold updateDispatch at h
+    split at h
+    · cases h
+    · split at h <;> cases h
   case pushModifier => unfold pushDispatch at h; split at h <;> cases h
   case stage => unfold stageDispatch at h; split at h <;> cases h
   case exprProject | exprAddFields | exprMatchExpr | exprGroupId =>
@@ -243,31 +302,27 @@ theorem chunks_all {α} (p : α → Bool) (chunks : List (List α))
   intro x ⟨c, hc, hx⟩
   exact h c hc x hx
 
-theorem row_known_entries (kp : List Position) (kq : List (Position × Code)) (r : Row)
-    (h : r.ignoredKnown kp kq = true) :
-    ∀ e ∈ r.entries, e.disp = .ignored → e.pos ∈ kp ∨ (e.pos, e.code) ∈ kq := by
+theorem row_known_entries (kq : List (Position × Code)) (r : Row)
+    (h : r.ignoredKnown kq = true) :
+    ∀ e ∈ r.entries, e.disp = .ignored → (e.pos, e.code) ∈ kq := by
   intro e he hd
   simp only [Row.ignoredKnown, List.all_eq_true, Bool.or_eq_true, decide_eq_true_eq,
     List.contains_eq_mem] at h
   simp only [Row.entries, List.mem_map] at he
   obtain ⟨pd, hpd, rfl⟩ := he
-  rcases h pd hpd with (h1 | h1) | h1
+  rcases h pd hpd with h1 | h1
   · exact absurd hd h1
-  · exact Or.inl h1
-  · exact Or.inr h1
+  · exact h1
 
-theorem rows_known_entries (kp : List Position) (kq : List (Position × Code)) (rows : List Row)
-    (h : rows.all (Row.ignoredKnown kp kq) = true) :
-    ∀ e ∈ entriesOf rows, e.disp = .ignored → e.pos ∈ kp ∨ (e.pos, e.code) ∈ kq := by
+theorem rows_known_entries (kq : List (Position × Code)) (rows : List Row)
+    (h : rows.all (Row.ignoredKnown kq) = true) :
+    ∀ e ∈ entriesOf rows, e.disp = .ignored → (e.pos, e.code) ∈ kq := by
   intro e he
   simp only [entriesOf, List.mem_flatMap] at he
   obtain ⟨r, hr, her⟩ := he
-  exact row_known_entries kp kq r (List.all_eq_true.mp h r hr) e her
+  exact row_known_entries kq r (List.all_eq_true.mp h r hr) e her
 
 /-! ### consumer sites of the shared dispatchers -/
-
-theorem defaultRaise_raises (pos : Position) : (defaultRaise pos).raises = true := by
-  cases pos <;> rfl
 
 theorem siteRow_ok_entries (T : Tables Code) (r : SiteRow) (h : r.ok T = true) :
     ∀ e ∈ r.entries, dispatch T e.pos e.code = e.disp ∨ e.disp.raises = true := by
@@ -314,10 +369,10 @@ theorem siteRows_known_entries (known : List (Nat × Code)) (rows : List SiteRow
 /-- at a site that follows its dispatcher (or raises), an unrecognised `$name` raises -/
 theorem site_unknown_raises (T : Tables Code) (e : SiteEntry)
     (h : dispatch T e.pos e.code = e.disp ∨ e.disp.raises = true)
-    (hlazy : e.pos.lazy = false) (hop : isOp e.code = true) (hk : e.code ∉ recognised T e.pos) :
+    (hop : isOp e.code = true) (hk : e.code ∉ recognised T e.pos) :
     e.disp.raises = true := by
   rcases h with h | h
-  · rw [← h, unknown_raises T e.pos e.code hlazy hop hk]
+  · rw [← h, unknown_raises T e.pos e.code hop hk]
     exact defaultRaise_raises e.pos
   · exact h
 
